@@ -1,4 +1,6 @@
 fn main() {
+    // `tree_sitter_verif` guards verification-only step points in loader.rs.
+    println!("cargo::rustc-check-cfg=cfg(tree_sitter_verif)");
     println!(
         "cargo:rustc-env=BUILD_TARGET={}",
         std::env::var("TARGET").unwrap()
